@@ -37,6 +37,8 @@ type c14Case struct {
 	Reverse   int         `json:"reverse"`    // forward calls that reverse-call twice
 	PingMs    int         `json:"ping_ms"`
 	Reconnect bool        `json:"reconnect"`
+	Garbage   int         `json:"garbage,omitempty"`   // malformed / invalid-id / batch frames arriving at the server from the peer while the workload runs
+	CloseMid  int         `json:"close_mid,omitempty"` // > 0: at the end the client's closer is invoked while the client is in the middle of writing a reverse-call response of this many bytes
 	Rules     []*HookRule `json:"rules,omitempty"`
 }
 
@@ -170,6 +172,17 @@ func runC14(c c14Case) (*Violation, string) {
 			}
 		}()
 	}
+	if c.Garbage > 0 {
+		wg.Add(1)
+		go func() {
+			defer wg.Done()
+			frames := []string{`{"jsonrpc":"2.0","id":[3],"method":"Tok.Call","params":[]}`, `nonsense`, `[{"jsonrpc":"2.0","id":1,"method":"Tok.Call"}]`, `{"jsonrpc":"2.0","id":{"a":1},"method":"x"}`, `{"id":true}`, `{`}
+			for i := 0; i < c.Garbage; i++ {
+				rig.Proxy.InjectClientFrame(frames[i%len(frames)])
+				time.Sleep(300 * time.Microsecond)
+			}
+		}()
+	}
 	if c.Reconnect {
 		wg.Add(1)
 		go func() {
@@ -214,6 +227,34 @@ func runC14(c c14Case) (*Violation, string) {
 	if foreign != nil {
 		return foreign, ""
 	}
+	if c.CloseMid > 0 {
+		// the application closes the client while one of the client's own writers (a reverse-call response) is in
+		// the middle of a multi-fragment message: that message is completed, or the connection just ends; it is not
+		// cut short by a close frame
+		armed := rig.Proxy.StallAfterBytes("c2s", 16<<10)
+		p := rig.Go(cl, "call", rig.Tok("closemid"), Plan{RevBig: c.CloseMid})
+		select {
+		case <-armed:
+			done := make(chan bool, 1)
+			go func() { done <- cl.Close(6 * time.Second) }()
+			time.Sleep(40 * time.Millisecond)
+			rig.Proxy.Unstall()
+			if !<-done {
+				return violf("closer-hang", "the closer, invoked while a %d-byte reverse-call response was being written, did not return within 6s", c.CloseMid), ""
+			}
+			// the message that was being written when the closer was invoked is finished before the connection is
+			// given up: the server-side caller of that reverse call gets its answer
+			for deadline := time.Now().Add(6 * time.Second); len(rig.W.Notes(p.Tok)) == 0 && time.Now().Before(deadline); {
+				time.Sleep(2 * time.Millisecond)
+			}
+			if notes := rig.W.Notes(p.Tok); len(notes) == 0 || notes[0] != "big-ok" {
+				return violf("message-torn-by-close", "the client's closer was invoked while the client was writing a %d-byte reverse-call response (a multi-fragment message, link paused for 40 ms): the message was not completed before the connection was given up; the server-side caller observed %v", c.CloseMid, notes), ""
+			}
+		case <-p.Done:
+		case <-time.After(3 * time.Second):
+		}
+		rig.Proxy.Unstall()
+	}
 	if fv := rig.Proxy.FramingViolations(); len(fv) > 0 {
 		return violf("framing-violation", "WebSocket framing corrupted: %v", fv), ""
 	}
@@ -242,6 +283,10 @@ func c14NT(c c14Case) (bool, []string) {
 	add(c.Reverse > 0, "w_reverse")
 	add(c.PingMs <= 5, "w_pings")
 	add(c.Reconnect, "w_reconnect")
+	add(c.Garbage > 0, "w_invalid_inbound_frames")
+	if c.CloseMid > 0 {
+		cl = append(cl, "close_during_own_write")
+	}
 	multi := false
 	for _, s := range c.Sizes {
 		if s > 4096 {
@@ -257,19 +302,19 @@ func c14NT(c c14Case) (bool, []string) {
 	return kinds >= 3 && multi, cl
 }
 
-const c14Rule = "one connection with, simultaneously: 0-6 caller goroutines x 1-8 calls with result sizes 10 B - 40 KiB, 0-3 running calls cancelled (cancel path 1), 0-4 subscriptions of 4-60 padded values (registration replies, values, closes; some cancelled through their context = cancel path 2), 0-3 forward calls that reverse-call three times, pings every 1-5 ms from both sides, optionally one connection reset with calls continuing across the swap; 0-3 delays of 50 us - 2 ms inside the writers' critical sections (write.locked). Non-trivial = >=3 writer kinds active and at least one multi-frame message; distinct by descriptor hash"
+const c14Rule = "one connection with, simultaneously: 0-6 caller goroutines x 1-8 calls with result sizes 10 B - 40 KiB, 0-3 running calls cancelled (cancel path 1), 0-4 subscriptions of 4-60 padded values (registration replies, values, closes; some cancelled through their context = cancel path 2), 0-3 forward calls that reverse-call three times, pings every 1-5 ms from both sides, optionally one connection reset with calls continuing across the swap, optionally 5-60 malformed / invalid-id / batch frames arriving from the peer meanwhile, optionally the client's closer invoked while the client is inside a 6-12 MiB multi-fragment reverse-call response (link paused for 40 ms); 0-3 delays of 50 us - 2 ms inside the writers' critical sections (write.locked). Non-trivial = >=3 writer kinds active and at least one multi-frame message; distinct by descriptor hash"
 
 func TestC14(t *testing.T) {
 	rec := NewRec("C14", c14Rule)
 	defer rec.Finish(t)
 	rec.EnableJournal()
-	rec.RequireClass("w_calls", "w_cancel_call", "w_streams", "w_cancel_sub", "w_reverse", "w_pings", "w_reconnect", "multi_frame", "with_delays")
+	rec.RequireClass("w_invalid_inbound_frames", "close_during_own_write", "w_calls", "w_cancel_call", "w_streams", "w_cancel_sub", "w_reverse", "w_pings", "w_reconnect", "multi_frame", "with_delays")
 	var msgs int64
 	run := func(ft failer, c c14Case) {
 		nt, cl := c14NT(c)
 		rec.Run(ft, c, nt, cl, func() *Violation {
 			v, info := runC14(c)
-			if v != nil && v.Key == "workload-wedged" {
+			if v != nil && (v.Key == "workload-wedged" || v.Key == "message-torn-by-close") {
 				if v2, _ := runC14(c); v2 == nil {
 					v = nil
 				}
@@ -298,6 +343,17 @@ func TestC14(t *testing.T) {
 				run(t, c)
 			}
 		}
+		if sh == 0 {
+			c := base
+			c.Garbage = 40
+			c.Sizes = []int{40000, 20000, 9000}
+			run(t, c)
+			c = base
+			c.CloseMid = 12 << 20
+			run(t, c)
+			c = c14Case{Callers: 1, CallsEach: 2, Sizes: []int{10}, PingMs: 2, CloseMid: 8 << 20, Garbage: 5}
+			run(t, c)
+		}
 	})
 	rec.Rapid(t, "rapid", func(rt *rapid.T) {
 		c := c14Case{Callers: rapid.IntRange(0, 6).Draw(rt, "callers"), CallsEach: rapid.IntRange(1, 8).Draw(rt, "callseach"), Cancels: rapid.IntRange(0, 3).Draw(rt, "cancels"),
@@ -307,6 +363,13 @@ func TestC14(t *testing.T) {
 		ns := rapid.IntRange(1, 4).Draw(rt, "nsizes")
 		for i := 0; i < ns; i++ {
 			c.Sizes = append(c.Sizes, rapid.SampledFrom([]int{10, 100, 4000, 4096, 4200, 9000, 20000, 40000}).Draw(rt, fmt.Sprintf("size%d", i)))
+		}
+		if rapid.IntRange(0, 2).Draw(rt, "garbagekind") == 0 {
+			c.Garbage = rapid.IntRange(5, 60).Draw(rt, "garbage")
+		}
+		if rapid.IntRange(0, 5).Draw(rt, "closemidkind") == 0 {
+			// more than the socket buffers on the path hold, so that the writer really is inside the message
+			c.CloseMid = rapid.SampledFrom([]int{6 << 20, 8 << 20, 12 << 20}).Draw(rt, "closemid")
 		}
 		nr := rapid.IntRange(0, 3).Draw(rt, "nrules")
 		for i := 0; i < nr; i++ {
